@@ -499,6 +499,8 @@ func runC06(c *config) {
 	c06CallSpellings(c)
 	c06NamedOperands(c)
 	c06Const(c, newRng(c.seed, "c06const"))
+	// getelementptr constant expressions with vector operands in every spelling (c06gep.go)
+	c06ConstGEP(c, newRng(c.seed, "c06gep"))
 }
 
 func c06One(c *config, u *universe, cs c06Case, bodies string, sample bool) {
